@@ -306,6 +306,7 @@ func genC08(t *rapid.T) c08Case {
 	var c c08Case
 	nl := rapid.IntRange(1, 3).Draw(t, "nlists")
 	keys := map[string]bool{}
+	var hashSrc []string // source hosts for the hash-colliding $domain family
 	add := func(m NetModel, extra bool) {
 		c.Lines = append(c.Lines, c08Line{Text: renderNet(t, m), Model: m, List: rapid.IntRange(0, nl-1).Draw(t, "list"),
 			Pos: rapid.IntRange(0, 50).Draw(t, "pos"), Extra: extra})
@@ -363,6 +364,23 @@ func genC08(t *rapid.T) c08Case {
 				keys[modelKey(rep)] = true
 				add(x, false)
 				add(rep, true)
+				continue
+			}
+		}
+		if chance(t, "hash-colliding-domain", 10) {
+			// fifth family: the base rule and a lone badfilter rule whose $domain lists differ in one entry only,
+			// the two entries having the same FastHash
+			cp := pick(t, "dcollider", domainColliders)
+			y := x
+			y.DPerm, y.DRestr, y.TP = []string{cp[0], "example.com"}, nil, 0
+			tw2 := y
+			tw2.DPerm = []string{"example.com", cp[1]}
+			tw2.Extra = append(append([]string{}, y.Extra...), "badfilter")
+			if !keys[modelKey(y)] && !keys[modelKey(tw2)] {
+				keys[modelKey(y)], keys[modelKey(tw2)] = true, true
+				add(y, false)
+				add(tw2, true)
+				hashSrc = append(hashSrc, cp[0], cp[1])
 				continue
 			}
 		}
@@ -443,6 +461,9 @@ func genC08(t *rapid.T) c08Case {
 		q := genQNear(t, m)
 		if chance(t, "exact", 2) {
 			q = repairQ(t, q, m)
+		}
+		if len(hashSrc) > 0 && !q.Host && chance(t, "hash-src", 2) {
+			q.Src = "http://" + pick(t, "hash-src-host", hashSrc) + "/"
 		}
 		c.Reqs = append(c.Reqs, q)
 	}
